@@ -87,6 +87,14 @@ def check_core(ctx, a, b, bt):
         ("rmul_int", outcome(operator.mul, k, x), expect_td("mul_int", a, k), TD),
         ("floordiv_int", outcome(operator.floordiv, x, k), expect_td("floordiv_int", a, k), TD),
     ]
+    # the integer operand may be any integer object (a NumPy scalar of any width, an IntEnum value, a bool): the same integer, the
+    # same exact result - also beyond 2**53, where a detour through float would round
+    import numpy as np
+    for T in (np.int64, np.uint64, np.int32, np.int8):
+        info = np.iinfo(T)
+        if info.min <= k <= info.max:
+            cases += [(f"mul_{T.__name__}", outcome(operator.mul, x, T(k)), expect_td("mul_int", a, k), TD),
+                      (f"floordiv_{T.__name__}", outcome(operator.floordiv, x, T(k)), expect_td("floordiv_int", a, k), TD)]
     for name, o, want, rtype in cases:
         got = obs(o)
         if got != want or (o[0] == "ok" and not isinstance(o[1], rtype)):
